@@ -47,7 +47,9 @@ theorem eval_mkDiv' {k : Kind} {a b e : Expr} (h : mkDiv k a b = .ok e) :
     eval ρd ρs e = evalBin k (eval ρd ρs a) (eval ρd ρs b) := by
   unfold mkDiv at h
   split at h
-  · simpa [eval] using eval_foldConst ρd ρs h
+  · split at h
+    · cases h; simp [eval]
+    · simpa [eval] using eval_foldConst ρd ρs h
   · cases h; simp [eval]
   · cases h
 
